@@ -381,6 +381,10 @@ package snapshot
 //@   ghost update @plan.New: planV = result
 //@   assert @p.AddRemoveAll#1: [plain-removal-only-without-wals] step == 0
 //@   assert @p.AddCheckpoint: [checkpoint-first] step == 0
+//@   assert @p.AddCheckpoint: [checkpoint-list-includes-the-full-snapshots-own-wals] arg1 == walFiles && len(walFiles) >= len(full.walFiles) && nOwn == len(full.walFiles)
+//@   ghost var nOwn int = 0
+//@   ghost update after @append#1: nOwn = nOwn + 1
+//@   assert @append#1: [own-wals-first-in-order] arg1 == wf.Path && len(walFiles) == nOwn
 //@   ghost update @p.AddCheckpoint: step = 1
 //@   assert @p.AddCalcCRC32: [crc-after-checkpoint] step == 1 && arg0 == dbPath
 //@   ghost update @p.AddCalcCRC32: step = 2
@@ -399,8 +403,11 @@ package snapshot
 //@   assert @s.executeReapPlan#1: [resume-runs-the-stored-plan] arg0 == p && arg1 == s.reapPlanPath
 //@   assert @s.executeReapPlan#2: [plan-persisted-before-execution] persisted && arg0 == p && p == planV && arg1 == s.reapPlanPath
 //@   loop 1 invariant [building] step == 0 && p == planV && !persisted
+//@   loop 1 invariant [own-wals-so-far] nOwn == _i && len(walFiles) == _i
 //@   loop 2 invariant [building] step == 0 && p == planV && !persisted
+//@   loop 2 invariant [own-wals-kept] nOwn == len(full.walFiles) && len(walFiles) >= len(full.walFiles)
 //@   loop 3 invariant [building] step == 0 && p == planV && !persisted
+//@   loop 3 invariant [own-wals-kept] nOwn == len(full.walFiles) && len(walFiles) >= len(full.walFiles)
 //@   loop 4 invariant [building] step == 0 && p == planV && !persisted
 //@   loop 5 invariant [building] (step == 2 || step == 3) && p == planV && !persisted
 //@   loop 6 invariant [building] (step == 2 || step == 3) && p == planV && !persisted
@@ -535,3 +542,28 @@ package snapshot
 //@   requires [recv] s != nil
 //@   assigns **
 //@   ensures [writer-on-success] result2 == nil ==> (result0 != nil && !result0.closed)
+
+// ---- C12: the checksums a snapshot stream carries are the RECORDED ones ---------------------------------
+// NewHeaderFromChecksummedFile: the header carries the checksum recorded in the sidecar (recomputed
+// from the file only when the sidecar says checksums are disabled).
+// NewChecksummedSnapshotHeader: the database header and EVERY WAL header are built that way, each
+// from its own file, in order - never from a checksum computed when the snapshot is opened, which
+// would vouch for whatever bytes are on disk by then.
+//@ func NewHeaderFromChecksummedFile
+//@   assigns *
+//@   ghost var recomputed bool = false
+//@   ghost var disabled bool = false
+//@   ghost update @rsum.CRC32: recomputed = true
+//@   assert @rsum.CRC32: [recomputed-only-when-disabled] hf.sidecar != nil && hf.sidecar.Disabled && arg0 == hf.Path
+//@   ensures [recorded-checksum] (result1 == nil && !recomputed) ==> (result0 != nil && result0.Crc32 == old(hf.CRC32))
+//
+//@ func NewChecksummedSnapshotHeader
+//@   assigns *
+//@   ghost var nHdr int = 0
+//@   assert @NewHeaderFromChecksummedFile#1: [database-header-from-its-recorded-checksum] arg0 == dbFile
+//@   assert @?NewHeaderFromChecksummedFile#2: [wal-header-from-its-own-recorded-checksum] arg0 == w
+//@   ghost update after @?NewHeaderFromChecksummedFile#2: nHdr = ite(result1 == nil, nHdr + 1, nHdr)
+//@   assert @?NewHeaderFromFile: [never-a-checksum-computed-at-open] false
+//@   assert @?rsum.CRC32: [never-a-checksum-computed-at-open] false
+//@   loop 1 invariant [one-header-per-wal-so-far] nHdr == _i
+//@   ensures [every-wal-has-a-header] result1 == nil ==> nHdr == len(walFiles)
